@@ -56,6 +56,12 @@ def rand_valid(rng, k):
         s["twist_cp"] = [float(x) for x in np.round(rng.uniform(-2, 2, 2), 2)]
         c["flow"] = dict(alpha=float(np.round(rng.uniform(0, 6), 2)), v=float(rng.uniform(60, 160)), rho=float(rng.uniform(0.3, 0.8)), Mach_number=0.6,
                          load_factor=float(rng.choice([1.0, 2.5])))
+    # documented option values at the ends of their ranges (fully turbulent / fully laminar boundary layer, zero offsets, projected area)
+    s["k_lam"] = float(rng.choice([0.0, 0.05, 1.0, float(np.round(rng.random(), 2))]))
+    s["CL0"] = float(rng.choice([0.0, float(np.round(rng.uniform(-0.2, 0.4), 3))]))
+    s["CD0"] = float(rng.choice([0.0, 0.015]))
+    s["S_ref_type"] = str(rng.choice(["wetted", "wetted", "projected"]))
+    s["c_max_t"] = float(rng.choice([0.303, 0.1, 0.6]))
     return c
 
 
